@@ -211,7 +211,7 @@ def r3_bounded_copy(ctx):
     (out.append(holds("C17.R3", "copy_path_into_buffer:guards", t.where(), "copy only for non-NULL buffer and bufsize > 0")) if okn and okz else
      out.append(violated("C17.R3", "copy_path_into_buffer:guards", t.where(), "copy not guarded by non-NULL (%s) and non-zero size (%s)" % (okn, okz))))
     # return = full length
-    ro = T.return_origins(cb, ("0",))
+    ro = T.return_origins(cb, OKP)
     okr = bool(ro) and all(o.kind == "call" and o.term.callee == "core::slice::<impl [T]>::len" for o in ro)
     (out.append(holds("C17.R3", "copy_path_into_buffer:returns-full-length", cb.where(), "returns the link length, not the copied count")) if okr else
      out.append(violated("C17.R3", "copy_path_into_buffer:returns-full-length", cb.where(), "return value is %r" % ro)))
